@@ -56,6 +56,10 @@ fn p_files(t: &mut Toks) -> Result<Vec<(Vec<String>, FileDoc)>, String> {
             out.push((path, FileDoc::Raw(crate::unhex(h)?)));
         } else if let Some(h) = tok.strip_prefix("Y") {
             out.push((path, FileDoc::Symlink(crate::unhex(h)?)));
+        } else if let Some(h) = tok.strip_prefix("K") {
+            // symlink to a YAML file; the content that follows is for the model only
+            out.push((path, FileDoc::Symlink(crate::unhex(h)?)));
+            let _ = p_yaml(t)?;
         } else {
             t.set_pos(save);
             out.push((path, FileDoc::Doc(p_yaml(t)?)));
@@ -207,6 +211,37 @@ pub fn run(mode: &str, t: &mut Toks) -> Result<String, String> {
                             Err(e) => err_line(&format!("{e}")),
                         })
                     }
+                    "seq" => {
+                        // a sequence of render calls on ONE instance ("*" = the whole inventory)
+                        let names = t.strings()?;
+                        let mut outs = vec![];
+                        for name in names {
+                            if name == "*" {
+                                outs.push(match r.render_inventory() {
+                                    Ok(_) => "inv-ok".to_string(),
+                                    Err(_) => "inv-err".to_string(),
+                                });
+                                continue;
+                            }
+                            outs.push(match r.render_node(&name) {
+                                Ok(i) => format!(
+                                    "ok {}",
+                                    canon_nodeinfo_parts(
+                                        &i.reclass.node,
+                                        &i.reclass.name,
+                                        &i.reclass.uri,
+                                        &i.reclass.environment,
+                                        &i.applications,
+                                        &i.classes,
+                                        &i.parameters,
+                                        &case.nodes_root
+                                    )
+                                ),
+                                Err(e) => err_line(&format!("{e}")),
+                            });
+                        }
+                        Ok(format!("seq {}", outs.join(" ;; ")))
+                    }
                     "pynode" => {
                         let name = t.string()?;
                         // Rust-side rendered data of the same node, for the equality oracle
@@ -221,7 +256,19 @@ pub fn run(mode: &str, t: &mut Toks) -> Result<String, String> {
                         let py = crate::pymode::py_node(r, &name, &case.nodes_root)?;
                         Ok(format!("{py} ## {rust}"))
                     }
-                    "pyinv" => crate::pymode::py_inventory(r),
+                    "pyinv" => {
+                        let py = crate::pymode::py_inventory(r)?;
+                        // Rust-side outcome of every node, for the "carries the underlying message" oracle
+                        let mut names: Vec<String> = r.nodes().map_err(|e| e.to_string())?.into_keys().collect();
+                        names.sort();
+                        let mut errs = String::new();
+                        for n in names {
+                            if let Err(e) = r.render_node(&n) {
+                                errs.push_str(&format!(" S{} S{}", hex(&n), hex(&format!("{e}"))));
+                            }
+                        }
+                        Ok(format!("{py} ## errs{errs}"))
+                    }
                     "fault" => {
                         // apply a file-system fault after construction, then render
                         let kind = t.next()?.to_string();
